@@ -542,7 +542,10 @@ func caseC15JSON(c *hx.Case) {
 	}
 	files := map[string]*hcl.File{"t.json": f}
 	_ = renderDiags(c, diags, files)
-	exerciseBody(c, "json", f.Body, len(src), !diags.HasErrors(), 0)
+	// (ill-formed UTF-8 in a string is replaced by U+FFFD when the string is decoded, so the
+	// template diagnostics of its evaluation are positioned in a longer text: known finding)
+	evalBody := !diags.HasErrors() && (utf8.Valid(src) || !c.Known("json-template-range-after-illformed-utf8"))
+	exerciseBody(c, "json", f.Body, len(src), evalBody, 0)
 	var e hcl.Expression
 	c.Guard("json.ParseExpression", func() { e, diags = hcljson.ParseExpression(src, "t.json") })
 	if e == nil {
